@@ -118,7 +118,7 @@ Definition alu_compute (i : instr) (a b : option Z) : res (option bool * option 
   | II o _ _ _ => need (fun x y => (None, Some (i_alu o x y)))
   | ISh o _ _ _ => need (fun x y => (None, Some (sh_alu o x y)))
   | ILoad _ _ _ _ => need (fun x y => (None, Some (U32 x + y)))
-  | IJalr _ _ _ => need (fun x y => (None, Some (Z.land (x + y) (Z.lnot 1))))
+  | IJalr _ _ _ => need (fun x y => (None, Some (Z.land (x + y) (2 ^ 32 - 2))))
   | IEcall => Ok (None, Some 0)
   | IStore _ _ _ _ =>
       match a, b with Some x, Some y => Ok (None, Some (x + y)) | _, _ => Ok (None, None) end
